@@ -833,8 +833,101 @@ def advance(rep, c, sfx):
             if not ascii_ok:
                 r.violation(key, where(x), "Position::%s moves the cursor by the constant %s: on a multi-byte character this "
                             "stops inside it (token positions off UTF-8 boundaries; as_str / spans panic)" % (b["name"], lit))
+        # a cursor assembled in a local first (`let mut p = self.pos; .. p += w; .. self.pos = p`): the same question for
+        # every literal step added to that local; a width read off the lead byte must follow the UTF-8 table exactly
+        lets = hirq.lets(b["body"])
+        modes = hirq.binding_modes(b)
+        feeders = set()
+        for x in walk(b["body"]):
+            if kind(x) in ("Assign", "AssignOp"):
+                tgt = peel(x["l"])
+                if kind(tgt) == "Field" and tgt["name"] == "pos" and "Position" in tgt.get("bty", ""):
+                    for y in walk(x["r"]):
+                        if kind(y) == "Path" and y.get("res") == "local" and modes.get(y["id"]) and y.get("ty") == "usize":
+                            feeders.add(y["id"])
+        for x in walk(b["body"]):
+            if kind(x) != "AssignOp" or x.get("op") not in ("+=", "+", "-=", "-") or hirq.local_id(x["l"]) not in feeders:
+                continue
+            step = hirq.lit_value(peel(x["r"]))
+            if not isinstance(step, int) or step == 0:
+                continue
+            n += 1
+            key = "%s:local-step-%d" % (b["name"], step)
+            r.instance(key, where(x), "literal step on the local cursor")
+            why = utf8_width_guard(ctx, x, step)
+            if why:
+                r.violation(key, where(x), "Position::%s advances its cursor by the constant %d %s: positions then fall "
+                            "inside or past a character (e.g. DEL U+007F taken as a 2-byte lead)" % (b["name"], step, why))
     if n == 0:
         r.lost("writes to Position.pos")
+
+
+def _eval_byte(e, bval):
+    """Value of an integer/boolean expression over one byte variable (any u8 local), or None."""
+    e = peel(e)
+    k = kind(e)
+    if k == "Lit":
+        v = hirq.lit_value(e)
+        return v if isinstance(v, (int, bool)) else None
+    if k == "Path" and e.get("res") == "local" and e.get("ty") in ("u8", "&u8"):
+        return bval
+    if k == "Binary":
+        a, b2 = _eval_byte(e["l"], bval), _eval_byte(e["r"], bval)
+        if a is None or b2 is None:
+            return None
+        op = e["op"]
+        try:
+            return {"<": a < b2, "<=": a <= b2, ">": a > b2, ">=": a >= b2, "==": a == b2, "!=": a != b2,
+                    "&&": bool(a) and bool(b2), "||": bool(a) or bool(b2), "&": a & b2, "|": a | b2,
+                    ">>": a >> b2, "+": a + b2, "-": a - b2}[op]
+        except (KeyError, TypeError):
+            return None
+    if k == "Unary" and e["op"] == "!":
+        v = _eval_byte(e["e"], bval)
+        return None if v is None else (not v)
+    if k == "MethodCall" and e["m"] == "is_ascii":
+        return bval < 0x80
+    return None
+
+
+def utf8_width_guard(ctx, node, step):
+    """None if `step` is the UTF-8 width of every lead byte under which `node` executes; else a reason."""
+    conds = []   # (expr, required truth)
+    for g in ctx.guards(node):
+        if g[0] == "if":
+            conds.append((g[1], g[2]))
+        elif g[0] == "guard":
+            conds.append((g[1], True))
+        elif g[0] == "arm":
+            m, idx = g[1], g[2]
+            for arm in m["arms"][:idx]:
+                if arm.get("guard") is not None:
+                    conds.append((arm["guard"], False))
+                elif not hirq.pat_is_catchall(arm["pat"]) and not any(v.endswith("Option::None") for v in hirq.pat_variants(arm["pat"])):
+                    lits = [q for q in walk(arm["pat"]) if q.get("k") in ("PLit", "PRange")]
+                    if lits:
+                        return "(earlier arms match byte patterns this rule does not evaluate)"
+    lead = [bb for bb in range(0x00, 0x80)] + list(range(0xC2, 0xE0)) + list(range(0xE0, 0xF0)) + list(range(0xF0, 0xF5))
+    width = lambda bb: 1 if bb < 0x80 else (2 if bb < 0xE0 else (3 if bb < 0xF0 else 4))
+    hit = 0
+    for bb in lead:
+        ok = True
+        for (c0, truth) in conds:
+            v = _eval_byte(c0, bb)
+            if v is None:
+                if kind(peel(c0)) == "LetExpr":
+                    continue
+                return "(under a condition this rule cannot evaluate over the lead byte: `%s`)" % hirq.expr_text(c0)[:50]
+            if bool(v) != truth:
+                ok = False
+                break
+        if ok:
+            hit += 1
+            if width(bb) != step:
+                return "for lead byte 0x%02X, whose character is %d byte(s) wide" % (bb, width(bb))
+    if hit == 0:
+        return "(on a path no lead byte reaches)"
+    return None
 
 
 TOKEN_POS_GETTERS = set()
